@@ -39,7 +39,7 @@ PROPS["C01"] = {
 
 PROPS["C02"] = {
     "kind": "harness", "test": "TestC02", "level": "fault_enumeration",
-    "tiers": tiers(80, 4, 800, 16),
+    "tiers": tiers(300, 8, 1500, 16),
     "rule": "rapid-generated cases of 1-4 segments of valid DDL/DML histories (<=22 statements each, 1-9 tables) with a generated flush pattern "
             "(never / always / random subset / only after DDL), each segment ended by process death (stores abandoned, nothing flushed) or clean shutdown; "
             "in segment 0 a crash image (copy of data file and log) is taken after EVERY statement and recovered with the real InitStorage; every image and every "
@@ -77,6 +77,19 @@ PROPS["C04"] = {
     "level_text": "Per generated history every flush is attacked with all (or >=64 sampled) page-subset torn states at page granularity, which covers every write order Go's map iteration could take; histories are random. The region of the listed structural finding is excluded by construction and counted.",
     "level_note": "Page-granular tearing (a torn 4096-byte write is not generated); crash = process death. Trusted: the composition (checked against the real file after each flush by construction: S=D + new header is the real post image), reference model.",
     "assumptions": ["a single page write is atomic", "crash = process death, completed writes are in the file"],
+}
+
+PROPS["C10"] = {
+    "kind": "harness", "test": "TestC10", "level": "exploration",
+    "tiers": tiers(5000, 4, 100000, 16),
+    "rule": "rapid-generated statement trees over the whole supported grammar (SELECT with <=3 joins, OR-of-AND conditions, aggregates with GROUP BY, ORDER BY <=6 keys, LIMIT/OFFSET in both orders; multi-row INSERT, UPDATE, DELETE, CREATE TABLE/DATABASE, USE, SHOW DATABASE[S]), "
+            "each rendered twice with independent layout choices (keyword case, spaces/tabs/newlines, optional INNER/AS/ASC, delimited identifiers, trailing semicolon) and parsed by the real scanner+parser; "
+            "both parses must equal, structurally (canonical printer over the sql AST), the AST the tree denotes. Plus exhaustively (shard 0): all 63 OR/AND shapes with <=6 comparisons x all 2^n valuations in 6 clause contexts, "
+            "evaluated over the parsed AST by an independent evaluator against 'AND binds tighter than OR'. Non-trivial: >=2 clauses beyond FROM, or a list with >=3 elements, or a condition mixing AND and OR; distinct by tree JSON.",
+    "technique": "grammar-based property testing (rapid): render/parse round trip against an explicit tree-to-AST mapping, metamorphic double rendering, bounded-exhaustive boolean shapes",
+    "level_text": "Random search over statement trees and their renderings with a structural round-trip oracle; the precedence sub-property is checked exhaustively up to 6 comparisons. Search, not proof.",
+    "level_note": "Trusted: the harness's tree-to-AST mapping (mk/ast.go) and canonical printer (token positions and nil-vs-empty lists are normalised away). Only statements of the grammar the parser implements are generated (no parentheses, no NULL literal, no unary minus).",
+    "exhaustive_note": "all 63 OR/AND shapes with <=6 leaves x all leaf valuations (4032 conditions)",
 }
 
 HOOK_COMMITS = ["7ca683e"]
